@@ -143,8 +143,12 @@ def fam_para(ctx, which, fr_name, scaled):
     b = tuple(ctx.param('b%d' % i) for i in range(3))
     k = ctx.param('k')
     ctx.assume(Or(k >= F(1, 4), k <= -F(1, 4)))
-    v1 = R.vscale(k, e1) if scaled else e1
+    v1 = R.vscale(k, e1) if scaled is True else e1
     v2, v3 = e2, R.vadd(e3, R.vscale(F(1, 2), e1))
+    if scaled == 'slender':
+        # independent edge vectors enclosing a small (or, for k < 0, nearly straight) angle: v2 = e1 + s e2, s >= 1/32
+        sh = ctx.param('s', F(1, 32), 2)
+        v2 = R.affine(e1, (sh, e2))
     bp, a1, a2, a3 = pt(ctx, b), vec(ctx, v1), vec(ctx, v2), vec(ctx, v3)
     s0 = [snap(x) for x in (bp, a1, a2, a3)]
     if which == 'Parallelogram':
@@ -212,6 +216,8 @@ def families(tier, seed):
     for fr in (['axis', 'planar'] if tier == 'quick' else ['axis', 'planar', 'oblique', 'pyth3', 'shear']):
         for which in ('Parallelogram', 'Parallelepiped'):
             fams.append(Family('%s/%s/scaled' % (which.lower(), fr), fam_para, (which, fr, True), must_reach=('ok',), budget_s=60 if tier == 'quick' else 600))
+            if fr == 'axis' or tier != 'quick':
+                fams.append(Family('%s/%s/slender' % (which.lower(), fr), fam_para, (which, fr, 'slender'), must_reach=('ok',), budget_s=60 if tier == 'quick' else 600))
     return fams
 
 
